@@ -43,6 +43,7 @@ def shard(ctx: Ctx) -> None:
     sweep.keepalive_values_sweep(ctx, PROP)
     sweep.hello_content_sweep(ctx, PROP)
     sweep.abandoned_disconnect_sweep(ctx, PROP)
+    sweep.crossing_requests_sweep(ctx, PROP)
     sweep.reconnect_in_on_stop_sweep(ctx, PROP)
     if ctx.thorough:
         sweep.pair_sweep(ctx, PROP, 3000)
